@@ -119,6 +119,8 @@ class Report:
         self.phase_stats: dict = {}
         self.digests: dict = {}
         self.runs_with_fault = 0
+        self._sample_buckets: dict = {}
+        self._sample_sigs: set = set()
 
     def absorb(self, key, r: RunResult):
         self.evaluations += 1
@@ -132,8 +134,13 @@ class Report:
         self.decisions += r.n_decisions
         for k in r.known:
             self.known_hit[k] += 1
-        if r.sample is not None and len(self.samples) < 6 and (r.nontrivial or len(self.samples) < 2):
-            self.samples.append(r.sample)
+        if r.sample is not None:
+            # a few written-out cases per leg, non-trivial and distinct ones preferred
+            bucket = self._sample_buckets.setdefault(key[2], [])
+            if len(bucket) < 3 and (r.nontrivial or not bucket) and r.sig not in self._sample_sigs:
+                bucket.append(r.sample)
+                self._sample_sigs.add(r.sig)
+                self.samples = [x for b in self._sample_buckets.values() for x in b]
         if key[0] == "seed" and len(self.digests) < 64:
             self.digests[(key[1], key[2])] = r.digest
 
@@ -251,7 +258,7 @@ def write_evidence(mod, report: Report, exit_code: int) -> None:
         "evaluations": int(report.evaluations),
         "distinct_nontrivial": int(len(report.sigs)),
         "rule": mod.RULE,
-        "samples": report.samples[:6] or [],
+        "samples": report.samples[:12] or [],
         "exhaustive": bool(report.exhaustive),
         "runs": int(report.evaluations),
         "runs_per_hour": int(report.evaluations / max(wall, 1e-9) * 3600),
